@@ -299,6 +299,11 @@ def r4(ctx):
         for (nid, v, how) in du.defs.get(nm, []):
             if isinstance(v, ast.AST) and any(isinstance(x, (ast.GeneratorExp, ast.SetComp, ast.ListComp)) for x in ast.walk(v)):
                 feeds = True
+    # (or the set is built empty and filled from the comprehensions: issued = set(); issued.update(<tokens of a pool>))
+    for c in ast.walk(gt.node):
+        if isinstance(c, ast.Call) and isinstance(c.func, ast.Attribute) and c.func.attr in ("update", "extend", "__ior__") and isinstance(c.func.value, ast.Name) \
+                and c.func.value.id in names_in_test and any(isinstance(x, (ast.GeneratorExp, ast.SetComp, ast.ListComp)) for a_ in c.args for x in ast.walk(a_)):
+            feeds = True
     direct = any(isinstance(x, (ast.GeneratorExp, ast.SetComp, ast.ListComp)) for x in ast.walk(test))
     ctx.check(feeds or direct or bool(bad), "C10.R4", gt, "the token set is what the loop tests", witness=sorted(names_in_test))
     # key kind of the pools: every subscript / membership on the pools uses an address-kind key
